@@ -7,8 +7,9 @@
     [pkey atts p] = the tuple of value INDICES of p (what DeduplicatePointIds compares);
     [wf_attr]/[wf_geo] = the structural validity the C++ relies on (map entries < #values, face ids < #points).
     All statements are for unbounded inputs (induction), none is a sample. *)
-From Coq Require Import List ZArith Bool Arith.
-From Draco Require Import Model.Dedup Model.Cleanup Model.Strips Proofs.Dedup_proofs Proofs.Cleanup_proofs Proofs.Strips_proofs.
+From Coq Require Import List ZArith Bool Arith Permutation.
+From Draco Require Import Model.Dedup Model.Cleanup Model.Strips Model.CornerTable Proofs.Dedup_proofs Proofs.Cleanup_proofs
+                          Proofs.Strips_proofs Proofs.Strips_ct_proofs.
 Import ListNotations.
 
 (* --------------------------------------------------------------- PointAttribute::DeduplicateValues *)
@@ -164,24 +165,105 @@ Proof. exact pc_build_preserves. Qed.
 Print Assumptions C14_builder_preserves_point_cloud.
 
 
-(* ------------------------------------------------------------------------ MeshStripifier (partial) *)
-(** FULL STATEMENT WANTED (not proved): for every mesh, decoding the index stream of
-    GenerateTriangleStripsWithPrimitiveRestart / …WithDegenerateTriangles with alternating winding yields a
-    permutation of the (non-degenerate) input faces, orientation preserved.
-    PROVED PART: one stored strip decodes to exactly the faces StoreStrip walks over, in order, each up to a
-    rotation of its corners, PROVIDED every edge the walk crosses passes GetOppositeCorner's seam test
-    ([walk_ok]).  MISSING: (a) that StoreStrip's walk retraces the strip found by GenerateStripsFromCorner (so
-    that [walk_ok] always holds and the faces walked are strip_faces_), (b) coverage: every face is put into
-    exactly one strip, (c) the separators of the two output modes add only degenerate triangles and keep the
-    winding parity.  (a)-(c) are covered by the exact correspondence of the model with the library, by the
-    driver evaluating [strips_walks_ok] on every generated case, and by the harness decoding the library's
-    output ("strips" search). *)
-Theorem C14_strips_store_sound_partial : forall faces opp n ci vis last out vis' last' cs,
-  walk_ok faces opp n 0 ci = true ->
-  store_strip faces opp n 0 ci vis last = Some (out, vis', last') -> walk opp n 0 ci = Some cs ->
-  Forall2 rot_equiv (map (tri_of_corner faces) cs) (decode_strip 0 out) /\ length cs = n.
-Proof. exact store_strip_sound. Qed.
-Print Assumptions C14_strips_store_sound_partial.
+(* ------------------------------------------------------------------------------ MeshStripifier *)
+(** THE STRIP CLAUSE, both output modes, for EVERY mesh (any number of faces, boundaries, seams, degenerate faces,
+    several components) — proved on the model Model/Strips.v ([faces] = the mesh's faces in POINT ids, [opp] = the
+    corner table's Opposite array):
+      decoding the index stream gives a list of triangles that is, face by face and up to a rotation of the three
+      corners (orientation kept), a permutation [l] of the mesh's face list.
+    - restart mode ([decode_restart]): the stream is split at the restart index, every run is decoded with
+      alternating winding (triangle j of a run = (s_j, s_j+1, s_j+2), first two swapped for odd j);
+    - degenerate mode ([decode_degenerate]): the whole stream is decoded as ONE strip with alternating winding and
+      the triangles with two equal indices are dropped; the mesh's own faces with two equal point ids are dropped on
+      the other side as well ([filter tri_nondeg]) — a renderer cannot tell them from the separators.
+    The only hypothesis is on [opp]: it is a symmetric pairing of existing corners.  This is clause 1a of C13
+    ([C13_opp_symmetric]); [C14_strips_*_on_corner_table] discharge it for the table CornerTable::Create builds from
+    the faces written in POSITION value indices (any triangle list with as many faces as the mesh), so that NO
+    hypothesis is left.  The driver also evaluates it ([opp_wf_b]) on the table the library built, in every case.
+    What the proofs contain (Proofs/Strips_proofs.v): (a) retracing: StoreStrip's walk with the plain Opposite
+    re-walks the strip GenerateStripsFromCorner found, backward pass reversed (the seam test is symmetric and
+    Opposite is an involution), so every edge it crosses passed the seam test; (b) coverage: the strips partition
+    the face set (visited flags), the fuel of the model's loops is never exhausted and StoreStrip never leaves the
+    mesh; (c) separators: the restart index cuts runs; the 2 or 3 repeated indices of the degenerate mode create only
+    triangles with two equal indices and put the first triangle of the next strip at an even position (parity
+    fix-up when an odd number of triangles was emitted).
+    Not covered by these theorems: the index type (values are naturals; a restart index equal to a point id, or
+    int overflow of num_encoded_faces_ beyond 2^31 faces, is outside the model). *)
+Theorem C14_strips_restart_preserve : forall faces opp,
+  (forall a b, opposite opp a = Some b -> opposite opp b = Some a /\ b < 3 * length faces) ->
+  exists s l, strips_restart faces opp = Some s /\ Permutation l (seq 0 (length faces)) /\
+              Forall2 rot_equiv (map (fun f => nth f faces (0, 0, 0)) l) (decode_restart s).
+Proof. exact strips_restart_preserve. Qed.
+Print Assumptions C14_strips_restart_preserve.
+
+Theorem C14_strips_degenerate_preserve : forall faces opp,
+  (forall a b, opposite opp a = Some b -> opposite opp b = Some a /\ b < 3 * length faces) ->
+  exists s l, strips_degenerate faces opp = Some s /\ Permutation l (seq 0 (length faces)) /\
+              Forall2 rot_equiv (filter tri_nondeg (map (fun f => nth f faces (0, 0, 0)) l)) (decode_degenerate s).
+Proof. exact strips_degenerate_preserve. Qed.
+Print Assumptions C14_strips_degenerate_preserve.
+
+(** corollary through the point->value maps: the decoded triangles carry the same per-corner attribute BYTES
+    ([rot3] = equal up to a rotation of the three corner tuples) *)
+Theorem C14_strips_restart_preserve_values : forall faces opp atts, opp_wf faces opp ->
+  exists s l, strips_restart faces opp = Some s /\ Permutation l (seq 0 (length faces)) /\
+    Forall2 rot3 (map (fun f => face_geom atts (nth f faces (0, 0, 0))) l) (map (face_geom atts) (decode_restart s)).
+Proof. exact strips_restart_preserve_values. Qed.
+Print Assumptions C14_strips_restart_preserve_values.
+Theorem C14_strips_degenerate_preserve_values : forall faces opp atts, opp_wf faces opp ->
+  exists s l, strips_degenerate faces opp = Some s /\ Permutation l (seq 0 (length faces)) /\
+    Forall2 rot3 (map (face_geom atts) (filter tri_nondeg (map (fun f => nth f faces (0, 0, 0)) l)))
+                 (map (face_geom atts) (decode_degenerate s)).
+Proof. exact strips_degenerate_preserve_values. Qed.
+Print Assumptions C14_strips_degenerate_preserve_values.
+
+(** the hypothesis is what C13 proves of CornerTable::Create's table, for ANY triangle list: no hypothesis left *)
+Theorem C14_strips_restart_on_corner_table : forall faces posfaces, length faces = length posfaces ->
+  exists t s l, ct_create posfaces = Some t /\ strips_restart faces (ct_opp t) = Some s /\
+    Permutation l (seq 0 (length faces)) /\
+    Forall2 rot_equiv (map (fun f => nth f faces (0, 0, 0)) l) (decode_restart s).
+Proof. exact strips_restart_on_corner_table. Qed.
+Print Assumptions C14_strips_restart_on_corner_table.
+Theorem C14_strips_degenerate_on_corner_table : forall faces posfaces, length faces = length posfaces ->
+  exists t s l, ct_create posfaces = Some t /\ strips_degenerate faces (ct_opp t) = Some s /\
+    Permutation l (seq 0 (length faces)) /\
+    Forall2 rot_equiv (filter tri_nondeg (map (fun f => nth f faces (0, 0, 0)) l)) (decode_degenerate s).
+Proof. exact strips_degenerate_on_corner_table. Qed.
+Print Assumptions C14_strips_degenerate_on_corner_table.
+
+(** the hypothesis as the computable test the driver runs on the library's table *)
+Theorem C14_strips_wf_checkable : forall faces opp, opp_wf_b faces opp = true -> opp_wf faces opp.
+Proof. exact opp_wf_b_sound. Qed.
+Print Assumptions C14_strips_wf_checkable.
+
+(** the decomposition.  Coverage: the main loop stores strips [css] (each = the corners StoreStrip reaches, start
+    corner first, every crossed edge passing the seam test: [good]) whose faces are a permutation of ALL faces. *)
+Theorem C14_strips_coverage : forall faces opp, opp_wf faces opp ->
+  exists css, gen_plan faces opp (length faces) 0 (repeat false (length faces)) = Some (plan_of css) /\
+              Forall (good faces opp) css /\ Permutation (map c_face (concat css)) (seq 0 (length faces)).
+Proof. exact plan_exists. Qed.
+Print Assumptions C14_strips_coverage.
+(** Retracing: what GenerateStripsFromCorner returns (strip_faces_, start corner) is re-walked by StoreStrip. *)
+Theorem C14_strips_retrace : forall faces opp, opp_wf faces opp -> forall vis ci,
+  length vis = length faces -> unvis vis (c_face ci) ->
+  exists sf start, strip_from_corner faces opp vis ci = Some (sf, start) /\
+    exists cs, W faces opp 0 start cs /\ Permutation (map c_face (start :: cs)) sf /\ NoDup sf /\
+               Forall (unvis vis) sf /\ In (c_face ci) sf.
+Proof. exact strip_from_corner_spec. Qed.
+Print Assumptions C14_strips_retrace.
+(** One strip: the indices StoreStrip emits along such a walk decode to the faces walked, in order, up to rotation. *)
+Theorem C14_strips_single_strip : forall faces opp cs, good faces opp cs ->
+  Forall2 rot_equiv (map (tri_of_corner faces) cs) (decode_strip 0 (emit_cs faces 0 cs)).
+Proof. exact strip_decode. Qed.
+Print Assumptions C14_strips_single_strip.
+(** Separators of the degenerate mode: after an emitted prefix ending in x, L (L = last_encoded_point_), the
+    indices L, S (and S once more) followed by a strip starting with S add only triangles with two equal indices and
+    shift the position by 4 (resp. 5). *)
+Theorem C14_strips_degenerate_separators : forall j x L S T,
+  filter tri_nondeg (decode_strip j (x :: L :: L :: S :: S :: T)) = filter tri_nondeg (decode_strip (4 + j) (S :: T)) /\
+  filter tri_nondeg (decode_strip j (x :: L :: L :: S :: S :: S :: T)) = filter tri_nondeg (decode_strip (5 + j) (S :: T)).
+Proof. intros. split; [apply nondeg_sep2 | apply nondeg_sep3]. Qed.
+Print Assumptions C14_strips_degenerate_separators.
 
 (* ------------------------------------------------------------------------------ non-vacuity *)
 (** float32 values 0.0, -0.0, 0.0, NaN(7fc00000), NaN(7fc00000): -0.0 is NOT merged with 0.0 (bytewise
@@ -214,14 +296,28 @@ Example C14_example_cleanup :
     Some (mkGeo 4 [mkAttr 1 DT_UINT8 [[1];[2];[3];[4]]%Z false [0;1;2;3]] [(0,1,2); (0,2,1); (0,2,3)]).
 Proof. vm_compute. split; reflexivity. Qed.
 
-(** a fan of three triangles as one strip; two disconnected components in both output modes (None = restart) *)
+(** a fan of three triangles as one strip; two disconnected components in both output modes (None = restart);
+    the hypothesis of the strip theorems holds of these tables ([opp_wf_b]); a 5-face mesh with an attribute seam
+    (faces 0-2 and 3-4 use different point ids along the shared edge) and a face with two equal point ids: 3 strips,
+    the second and third separators need the parity fix-up (three repeated indices), both streams decode to the faces *)
 Example C14_example_strips :
   let fs := [(0,1,2);(2,1,3);(2,3,4)] in
   let op := [Some 5; None; None; None; Some 8; Some 0; None; None; Some 4] in
+  opp_wf_b fs op = true /\
   strips_restart fs op = Some [Some 0; Some 1; Some 2; Some 3; Some 4] /\ strips_walks_ok fs op = true /\
+  option_map decode_restart (strips_restart fs op) = Some [(0,1,2);(2,1,3);(2,3,4)] /\
   option_map (decode_strip 0) (strips_degenerate fs op) = Some fs /\
   strips_restart [(0,1,2);(5,6,7);(2,1,3)] [Some 8; None; None; None; None; None; None; None; Some 0]
     = Some [Some 0; Some 1; Some 2; Some 3; None; Some 5; Some 6; Some 7] /\
   strips_degenerate [(0,1,2);(5,6,7);(2,1,3)] [Some 8; None; None; None; None; None; None; None; Some 0]
     = Some [0; 1; 2; 3; 3; 5; 5; 6; 7].
+Proof. vm_compute. repeat split; reflexivity. Qed.
+Example C14_example_strips_seam_and_parity :
+  let fs := [(0,1,2);(2,1,3);(5,6,4);(7,7,8);(9,10,11)] in
+  let op := [Some 5; None; None; None; Some 8; Some 0; None; None; Some 4; None; None; None; None; None; None] in
+  opp_wf_b fs op = true /\
+  strips_restart fs op = Some [Some 0; Some 1; Some 2; Some 3; None; Some 5; Some 6; Some 4; None; Some 7; Some 7; Some 8; None; Some 9; Some 10; Some 11] /\
+  strips_degenerate fs op = Some [0; 1; 2; 3;  3; 5;  5; 6; 4;  4; 7; 7;  7; 7; 8;  8; 9; 9;  9; 10; 11] /\
+  option_map decode_restart (strips_restart fs op) = Some [(0,1,2);(2,1,3);(5,6,4);(7,7,8);(9,10,11)] /\
+  option_map decode_degenerate (strips_degenerate fs op) = Some [(0,1,2);(2,1,3);(5,6,4);(9,10,11)].
 Proof. vm_compute. repeat split; reflexivity. Qed.
